@@ -540,6 +540,9 @@ template <typename T, typename U, typename A>
 inline typename ReusableVector<T, MonotonicAllocator<U, A>>::size_type
 ReusableVector<T, MonotonicAllocator<U, A>>::prepare_for_insert(
     size_type index, size_type count) noexcept {
+  if (count == 0) {
+    return ::std::min(index, _constructed_size);
+  }
   reserve(_size + count);
   auto move_end_size = ::std::max(index + count, _constructed_size);
   auto reconstruct_end_size = ::std::min(index + count, _constructed_size);
